@@ -1,5 +1,6 @@
 import ParryModel.Proto
 import ParryModel.C18.Model
+import ParryModel.C18.ModelAcd2
 import ParryModel.C18.DriverVox
 import Std.Data.HashSet
 /-! C18 protocol handlers. -/
@@ -295,8 +296,127 @@ def hullOracle (origin : V3 Float) (scale : Float) (parts : List (List Voxel))
   | r :: _ => r
   | [] => "pass"
 
+
+/-! ## `parts3`, `hullsample3`: per-part bookkeeping (`ModelAcd2.lean`) -/
+
+abbrev TraceLog := List (List Voxel × Option (CutPlane Float))
+
+/-- the decomposition loop replayed with a log of `(part, decision)` per `process_primitive_set` call;
+returns `(parts, number of parts kept by a decision, log)` -/
+def replayTrace (origin : V3 Float) (scale : Float) :
+    Nat → List (Option (CutPlane Float)) → List (List Voxel) → List (List Voxel) → TraceLog → List (List Voxel) × Nat × TraceLog
+  | 0, _, input, parts, log => (parts ++ input, parts.length, log)
+  | d+1, decs, input, parts, log =>
+    if input.isEmpty then (parts ++ input, parts.length, log) else
+    let r := input.foldl (fun (acc : List (Option (CutPlane Float)) × List (List Voxel) × List (List Voxel) × TraceLog) v =>
+      match acc.1 with
+      | [] => ([], acc.2.1 ++ [v], acc.2.2.1, acc.2.2.2 ++ [(v, none)])
+      | none :: ds => (ds, acc.2.1 ++ [v], acc.2.2.1, acc.2.2.2 ++ [(v, none)])
+      | some pl :: ds =>
+        let c := clip origin scale pl v
+        (ds, acc.2.1, acc.2.2.1 ++ [c.2, c.1], acc.2.2.2 ++ [(v, some pl)])) (decs, parts, [], log)
+    replayTrace origin scale d r.1 r.2.2.1 r.2.1 r.2.2.2
+
+/-- `VoxelSet::new()`: the stored bounding box before any `compute_bb` -/
+def defaultBB : (Nat × Nat × Nat) × (Nat × Nat × Nat) := ((0, 0, 0), (1, 1, 1))
+
+def fbb (b : (Nat × Nat × Nat) × (Nat × Nat × Nat)) : String :=
+  s!"{b.1.1} {b.1.2.1} {b.1.2.2} {b.2.1} {b.2.2.1} {b.2.2.2}"
+
+def modelParts3 (x : AcdArgs) : String :=
+  let parts := acd x.origin x.scale (replayOracle (K := Float)) x.decs x.maxh x.voxels
+  let tr := replayTrace x.origin x.scale (depthOf x.maxh) x.decs [x.voxels] [] []
+  if tr.1 != parts then "trace-mismatch" else
+  let items := parts.zipIdx.map fun (p, i) =>
+    -- parts kept by a decision went through `compute_bb`; parts left over when the depth is exhausted did not
+    let bb := if i < tr.2.1 then (computeBB p).getD defaultBB else defaultBB
+    s!"{p.length} {fbb bb} {ff (computeVolume x.scale p)}"
+  String.intercalate " " (toString parts.length :: items)
+
+def parts3Oracle (x : AcdArgs) (out : List (Nat × ((Nat × Nat × Nat) × (Nat × Nat × Nat)) × Float)) : String :=
+  let tr := replayTrace x.origin x.scale (depthOf x.maxh) x.decs [x.voxels] [] []
+  -- (a) every cutting plane the real code chose is, bit for bit, one of the axis-aligned voxel-boundary planes through the
+  -- bounding box of the part it cuts
+  let badPlane := tr.2.2.find? fun (v, d) =>
+    match d with
+    | none => false
+    | some pl =>
+      match computeBB v with
+      | none => true
+      | some (mn, mx) =>
+        let cands := computeAxesAlignedClippingPlanes x.origin x.scale mn mx 1 []
+        !(cands.any fun c => c.1.abc.x == pl.abc.x && c.1.abc.y == pl.abc.y && c.1.abc.z == pl.abc.z && c.1.d == pl.d)
+  match badPlane with
+  | some (v, _) => s!"fail cutting-plane-is-not-a-voxel-boundary-plane-through-the-part ({v.length} voxels)"
+  | none =>
+  -- (b) counts and volumes add up: nothing lost, nothing counted twice
+  let n := x.voxels.length
+  if (out.map (·.1)).foldl (· + ·) 0 != n then "fail part-sizes-do-not-add-up" else
+  let S := q x.scale
+  let badVol := out.find? fun (k, _, vol) =>
+    let e : Rat := S * S * S * (k : Rat)
+    !(FloatIO.isFinite vol) || !(leTol (q vol) e tolDefault && leTol e (q vol) tolDefault)
+  match badVol with
+  | some (k, _, _) => s!"fail part-volume-is-not-count-times-voxel-volume ({k} voxels)"
+  | none =>
+  -- (c) the stored bounding box of every part kept by a decision is the exact min/max of its voxels
+  if out.length != tr.1.length then "fail part-count" else
+  let bad := ((tr.1.zip out).zipIdx).find? fun ((p, o), i) =>
+    i < tr.2.1 && !p.isEmpty &&
+      (let mn := (maxNat (p.map fun v => 1000000 - v.i), maxNat (p.map fun v => 1000000 - v.j), maxNat (p.map fun v => 1000000 - v.k))
+       let mx := (maxNat (p.map (·.i)), maxNat (p.map (·.j)), maxNat (p.map (·.k)))
+       o.2.1 != ((1000000 - mn.1, 1000000 - mn.2.1, 1000000 - mn.2.2), mx))
+  match bad with
+  | some ((p, _), _) => s!"fail stored-bounding-box-is-not-the-box-of-the-part ({p.length} voxels)"
+  | none => "pass"
+
+/-- every vertex of the hull returned by `compute_convex_hull(sampling)` must be, bit for bit, a corner
+(`map_voxel_points`) of a surface voxel of the set -/
+def hullSampleOracle (origin : V3 Float) (scale : Float) (voxels : List Voxel) (sampling : Nat) (hull : List (V3 Float)) : String :=
+  let key (p : V3 Float) : String := fv3 p
+  let corners : Std.HashSet String := Std.HashSet.ofList
+    ((voxels.filter (·.surf)).flatMap fun v => (mapVoxelPoints origin scale v).map key)
+  match hull.find? (fun p => !corners.contains (key p)) with
+  | some p => s!"fail hull-vertex-is-not-a-corner-of-a-surface-voxel {fv3 p}"
+  | none =>
+    let ns := (voxels.filter (·.surf)).length
+    if sampling ≤ 1 && ns ≥ 1 && hull.length < 4 then "fail no-hull-for-a-non-empty-voxel-set" else "pass"
+
 def handler (fn : String) : Option Handler :=
   match fn with
+  | "parts3" => some {
+      model := fun a => run (do let x ← pacd; pure (modelParts3 x)) a
+      oracle := fun a o => match o with
+        | "panic" :: _ => (match run pacdBase a with
+          | some (res, pts, tris) => (match domain3 res pts tris with
+            | some why => s!"skip {why}"
+            | none => "fail panic")
+          | none => "skip bad-args")
+        | _ => match run pacd a with
+          | some x => (match domain3 x.res x.pts x.tris with
+            | some why => s!"skip {why}"
+            | none => match run (plist (do
+                let n ← pnat; let a0 ← pnat; let a1 ← pnat; let a2 ← pnat; let b0 ← pnat; let b1 ← pnat; let b2 ← pnat; let vol ← pfo
+                pure (n, ((a0, a1, a2), (b0, b1, b2)), vol))) o with
+              | some out => parts3Oracle x out
+              | none => "fail unparsable-output")
+          | none => "skip bad-args" }
+  | "hullsample3" => some {
+      model := fun _ => some "-"
+      oracle := fun a o => match run (do let res ← pnat; let fm ← pnat; let sm ← pnat; let m ← pmesh; pure (res, fm, sm, m)) a with
+        | none => "skip bad-args"
+        | some (res, _fm, sm, (pts, tris)) =>
+          match domain3 res pts tris with
+          | some why => s!"skip {why}"
+          | none =>
+          match o with
+          | "panic" :: _ => if sm = 0 then "fail panic[sampling=0-documented-as-no-voxel-ignored]" else "fail panic"
+          | _ => match run (do let _r ← pnat; let _f ← pnat; let sm ← pnat; let _m ← pmesh
+                               let org ← pv3; let sc ← pfo; let vs ← pvoxels; pure (sm, org, sc, vs)) a with
+            | some (sm, org, sc, vs) => (match run (plist pv3o) o with
+              | some hull => hullSampleOracle org sc vs sm hull
+              | none => "fail unparsable-output")
+            | none => "skip bad-args" }
   | "acd3" => some {
       model := fun a => run (do
         let x ← pacd
